@@ -18,7 +18,24 @@ ASSUMPTIONS = [
     "IEEE-754 rounding of numpy/scipy is not modelled: center and raw-poly are compared exactly on "
     "data chosen so that every float operation is exact (dyadic values, dyadic mean, powers below "
     "2^53); scale, bs and orthogonal poly are compared with relative tolerance 1e-9 (1e-6 for "
-    "orthogonal poly on data with offsets >= 1e3, where the recurrence loses digits)",
+    "orthogonal poly on data with offsets >= 1e3, or with a spread < 1/4 under an offset >= 1000 "
+    "spreads, where the recurrence loses digits: measured 8e-9 at degree 5 on six points "
+    "-512 + [0.01, 0.04]); small-spread data without offset (rates in [0.01, 0.09]) are judged at "
+    "1e-9; a column of the orthogonal poly whose first-order conditioning bound "
+    "4 * u * max|x| * k * width^(k-1) / sqrt(n2_k) (n2_k = exact squared norm of the monic "
+    "orthogonal polynomial, from the Lean model) exceeds that tolerance is compared with the model "
+    "at the bound instead (near-saturated degrees on clustered data under an offset; counted in the "
+    "input distribution)",
+    "data families: small integers, dyadics, ties, offsets 1e3..1e6, wide, small spread (dyadic "
+    "rates in [0.01, 0.09], also a narrower band), small spread on an offset (250, 37, -512); for "
+    "poly the later vectors leave the training range by at most 2.5 spreads when the spread is "
+    "small, because a tight cluster plus a point ~100 spreads away used as TRAINING data (changing-"
+    "argument histories) is ill-conditioned on the unchanged library (measured 1.6e-6 on the "
+    "degree-5 column)",
+    "formula interface: every contract is judged on the training matrix and on every later "
+    "evaluate_new_data of the same term (poly: two later frames), with the call written "
+    "positionally, by keyword in both orders, with defaults left out and with values taken from "
+    "the evaluation namespace",
     "scipy.interpolate.splev is assumed to evaluate the Cox-de Boor recursion on the knot interval "
     "found by FITPACK's search (clamped to [k, n-k-2]); np.percentile is assumed to be linear "
     "interpolation between order statistics; both are checked only through this correspondence",
@@ -83,7 +100,7 @@ def gen_vector(rng, n=None, exact_mean=False, style=None):
     if n is None:
         n = rng.choice([2, 2, 3, 3, 4, 5, 6, 7, 8, 9, 10, 12, 16, 20])
     style = style or rng.choice(["int", "int", "dyadic", "ties", "ties_hi", "offset", "offset", "wide",
-                                 "const"] if rng.random() < 0.9 else ["const"])
+                                 "small", "small_offset", "const"] if rng.random() < 0.9 else ["const"])
     den = 1
     if style == "int":
         ks = [rng.randrange(-6, 7) for _ in range(n)]
@@ -104,6 +121,15 @@ def gen_vector(rng, n=None, exact_mean=False, style=None):
         ks = [off * den + rng.randrange(-8, 9) for _ in range(n)]
     elif style == "wide":
         ks = [rng.randrange(-1000, 1001) for _ in range(n)]
+    elif style in ("small", "small_offset"):
+        # a small spread (rates / proportions between about 0.01 and 0.09, dyadic so that sums stay
+        # exact), alone or on top of an offset that is large relative to the spread
+        den = rng.choice([1024, 4096])
+        off = 0 if style == "small" else rng.choice([250, 250, 37, -512])
+        lo_k, hi_k = den // 100, (den * 9) // 100
+        if rng.random() < 0.25:
+            hi_k = lo_k + max(4, (hi_k - lo_k) // 8)      # a still narrower band
+        ks = [off * den + rng.randrange(lo_k, hi_k + 1) for _ in range(n)]
     else:
         c = rng.randrange(-4, 5)
         ks = [c] * n
@@ -114,10 +140,15 @@ def gen_vector(rng, n=None, exact_mean=False, style=None):
     return [F(k, den) for k in ks], style
 
 
-def gen_new(rng, base):
-    """later data: different size, shifted/rescaled, sometimes beyond the training range"""
+def gen_new(rng, base, scaled=False):
+    """later data: different size, shifted/rescaled, sometimes beyond the training range.
+    `scaled`: the excursions beyond the range are measured in units of the spread when the spread
+    is small (used for poly, where "a tight cluster plus one point 100 spreads away" as TRAINING
+    data of the changing-arguments histories is ill-conditioned on the unchanged library: measured
+    1.6e-6 on the degree-5 column, 1.5e-8 on the degree-4 column)"""
     n = rng.choice([1, 2, 3, 5, 8])
     lo, hi = min(base), max(base)
+    unit = (hi - lo) / 4 if (scaled and 0 < hi - lo < F(1, 4)) else F(1)
     out = []
     for _ in range(n):
         r = rng.random()
@@ -126,7 +157,7 @@ def gen_new(rng, base):
         elif r < 0.7:
             out.append(rng.choice(base))
         else:
-            out.append(lo + F(rng.randrange(-40, 41), 4))
+            out.append(lo + unit * F(rng.randrange(-40, 41), 4))
     return out
 
 
@@ -272,14 +303,43 @@ def bs_json(a):
     return j
 
 
-def bs_formula(a):
-    """-> (call text, extra namespace) or None when the arguments cannot be spelled"""
+BS_SPELLINGS = ("keyword", "positional", "mixed", "shuffled")
+
+
+def bs_formula(a, spelling="keyword"):
+    """-> (call text, extra namespace) or None when the arguments cannot be spelled.
+    `spelling`: every argument by keyword in signature order / all positional
+    (`bs(x, df, knots, degree, intercept, lower_bound, upper_bound)`, `None` for an omitted one) /
+    df, knots, degree positional and the rest by keyword / keywords in reversed order."""
     parts = ["x"]
     ns = {}
     if isinstance(a["df"], tuple) or isinstance(a["knots"], tuple) or not isinstance(a["degree"], int):
         return None
     if a["degree"] < 0:
         return None            # a unary minus inside a call argument: spelled differently; skip
+    if spelling != "keyword":
+        if a["knots"] is not None:
+            ns["kn"] = [fl(k) for k in a["knots"]]
+        if a["lower"] is not None:
+            ns["lo_b"] = fl(F(a["lower"]))
+        if a["upper"] is not None:
+            ns["up_b"] = fl(F(a["upper"]))
+        vals = [("df", None if a["df"] is None else str(a["df"])),
+                ("knots", None if a["knots"] is None else "kn"),
+                ("degree", str(a["degree"])),
+                ("intercept", "True" if a["intercept"] else "False"),
+                ("lower_bound", None if a["lower"] is None else "lo_b"),
+                ("upper_bound", None if a["upper"] is None else "up_b")]
+        if spelling == "positional":
+            while vals and vals[-1][1] is None:
+                vals.pop()
+            parts += [v if v is not None else "None" for _, v in vals]
+        elif spelling == "mixed":
+            parts += [v if v is not None else "None" for _, v in vals[:3]]
+            parts += [f"{k}={v}" for k, v in vals[3:] if v is not None]
+        else:
+            parts += [f"{k}={v}" for k, v in reversed(vals) if v is not None]
+        return "bs(" + ", ".join(parts) + ")", ns
     if a["df"] is not None:
         parts.append(f"df={a['df']}")
     if a["knots"] is not None:
@@ -323,7 +383,8 @@ def impl_simple(cls_name, calls):
 def _snapshot(common, call_text):
     """state of the transform instance held by the term's call node, right now"""
     try:
-        inst = common.terms[call_text].components[0].call.stateful_transform
+        name = call_text if call_text in common.terms else list(common.terms)[0]
+        inst = common.terms[name].components[0].call.stateful_transform
     except Exception:  # noqa
         return {}
     snap = {}
@@ -333,6 +394,28 @@ def _snapshot(common, call_text):
             v = None if v is None else [float(t) for t in v]
         snap[k] = v
     return snap
+
+
+def poly_spellings(d, raw):
+    """every way of writing `poly(x, degree=d, raw=raw)` in a formula: positional, keyword (both
+    orders), defaults left out, values taken from the evaluation namespace (`dg`, `rw`)"""
+    r = "True" if raw else "False"
+    out = [f"poly(x, {d}, {r})", f"poly(x, {d}, raw={r})", f"poly(x, degree={d}, raw={r})",
+           f"poly(x, raw={r}, degree={d})", "poly(x, dg, rw)", "poly(x, degree=dg, raw=rw)",
+           f"poly(x, dg, raw={r})"]
+    if not raw:
+        out += [f"poly(x, {d})", f"poly(x, degree={d})", "poly(x, dg)", "poly(x, degree=dg)"]
+    if d == 1:
+        out += [f"poly(x, raw={r})", "poly(x, raw=rw)"]
+        if not raw:
+            out += ["poly(x)"]
+    return out
+
+
+def poly_default_spelling(d, raw):
+    if d == 1 and not raw:
+        return "poly(x)"                      # the defaults of Polynomial.__call__
+    return f"poly(x, {d}, raw=True)" if raw else f"poly(x, {d})"
 
 
 def impl_formula(call_text, ns, calls):
@@ -346,6 +429,8 @@ def impl_formula(call_text, ns, calls):
     try:
         dm = design_matrices("y ~ 0 + " + call_text, d, extra_namespace=ns)
         common = dm.common
+        if call_text not in common.terms and len(common.terms) == 1:
+            call_text = list(common.terms)[0]       # the library's own rendering of the call
         outs.append(np.asarray(common[call_text], dtype=float).reshape(len(x0), -1).tolist())
         snaps.append(_snapshot(common, call_text))
     except Exception as e:  # noqa
@@ -529,7 +614,7 @@ def case_center_scale(run, which, calls, exact, path):
 # ------------------------------------------------------------------------------------------------
 # bs
 # ------------------------------------------------------------------------------------------------
-def case_bs(run, calls, tag, path):
+def case_bs(run, calls, tag, path, spelling="keyword"):
     """calls: [(x, abstract args)]"""
     res = run.res
     case = {"t": "bs", "path": path, "tag": tag,
@@ -538,10 +623,13 @@ def case_bs(run, calls, tag, path):
     if path == "direct":
         outs = impl_bs(calls)
     else:
-        spelled = bs_formula(calls[0][1])
+        spelled = bs_formula(calls[0][1], spelling)
         if spelled is None:
             return
         text, ns = spelled
+        case["spelling"] = spelling
+        case["text"] = text
+        res.count(f"bs:formula:{spelling}")
         mats, snaps = impl_formula(text, ns, [x for x, _ in calls])
         outs = []
         for m, sn in zip(mats, snaps):
@@ -669,8 +757,8 @@ def case_bs(run, calls, tag, path):
 # ------------------------------------------------------------------------------------------------
 # poly
 # ------------------------------------------------------------------------------------------------
-def case_poly(run, calls, path, same_args):
-    """calls: [(x, degree, raw)]"""
+def case_poly(run, calls, path, same_args, text=None):
+    """calls: [(x, degree, raw)]; `text`: how the call is written in the formula (formula path)"""
     res = run.res
     case = {"t": "poly", "path": path,
             "calls": [{"x": [str(v) for v in x], "degree": d, "raw": r} for x, d, r in calls]}
@@ -679,17 +767,22 @@ def case_poly(run, calls, path, same_args):
         outs, st = impl_poly(calls)
     else:
         x0, d0, r0 = calls[0]
-        if d0 == 1 and not r0:
-            text = "poly(x)"                      # the defaults of Polynomial.__call__
-        else:
-            text = f"poly(x, {d0}, raw=True)" if r0 else f"poly(x, {d0})"
-        mats, _ = impl_formula(text, None, [x for x, _, _ in calls])
+        text = text or poly_default_spelling(d0, r0)
+        case["text"] = text
+        res.count("poly:formula:" + text.replace(str(d0), "D"))
+        mats, _ = impl_formula(text, {"dg": d0, "rw": bool(r0)}, [x for x, _, _ in calls])
         outs = [m if isinstance(m, dict) else {"cols": np.asarray(m).T.tolist()} for m in mats]
         calls = calls[:len(outs)]
     res.evaluations += 1
     res.count(f"poly:{path}" + ("" if same_args else ":changing_args"))
     big = max([0.0] + [abs(fl(v)) for x, _, _ in calls for v in x])
     tol = RTOL if big < 1e3 else 1e-6
+    # the same loss of digits in scale-free form: an offset >= 1000 spreads on top of a small spread
+    # (measured on the unchanged library: 8.0e-9 on the degree-5 column of 6 points -512 + [0.01, 0.04],
+    # 1.2e-9 on the degree-3 column of 4 distinct points -512 + [0.010, 0.013])
+    for x, _, _ in calls:
+        if x and 0 < max(x) - min(x) < F(1, 4) and max(abs(v) for v in x) >= 1000 * (max(x) - min(x)):
+            tol = 1e-6
 
     def on_model(ans):
         res.traces += 1
@@ -714,15 +807,28 @@ def case_poly(run, calls, path, same_args):
                     mismatch(res, case, o, m, f"call {i}: raw powers differ")
                 continue
             ok = len(m["ortho"]) == len(o["cols"])
-            for mc, oc in zip(m["ortho"], o["cols"]):
+            seen = [v for xx, _, _ in calls[:i + 1] for v in xx]
+            width = fl(max(seen) - min(seen)) if seen else 0.0
+            delta = 2.0 ** -52 * max([0.0] + [abs(fl(v)) for v in seen])
+            for k, (mc, oc) in enumerate(zip(m["ortho"], o["cols"]), 1):
                 n2 = unq(mc["n2"])
                 if n2 is None or n2 == 0 or any(v is None for v in mc["p"]):
                     degenerate = True
                     break       # a zero norm: later columns are NaN / rounding noise
                 s = math.sqrt(fl(n2))
+                # conditioning of column k with respect to the rounding of the data themselves:
+                # the abscissae are known to delta = u * max|x| once centred, a monic degree-k
+                # polynomial with its roots inside the data moves by at most k * width^(k-1) * delta,
+                # and the column is that polynomial divided by sqrt(n2).  Only where this first-order
+                # bound (x4) exceeds the fixed tolerance does it replace it (a tight cluster next to
+                # far points under an offset: measured 4.0e-4 / bound 1.6e-3 on the degree-5 column
+                # of 1e6 + {0.5, 0.5625, 0.625, 0.96875, 1, -8})
+                tol_k = max(tol, 4 * delta * k * width ** (k - 1) / s)
+                if tol_k > tol:
+                    res.count("poly:column judged at its conditioning bound")
                 for pv, ov in zip(mc["p"], oc):
                     want = fl(unq(pv)) / s
-                    ok = ok and math.isfinite(ov) and abs(ov - want) <= tol * max(1.0, abs(want))
+                    ok = ok and math.isfinite(ov) and abs(ov - want) <= tol_k * max(1.0, abs(want))
             if not ok:
                 mismatch(res, case, o, m, f"call {i}: orthogonal polynomial columns differ")
         if degenerate:
@@ -749,6 +855,30 @@ def case_poly(run, calls, path, same_args):
         if d0 >= 1:
             failure(res, case, o0, None, "poly refused a valid degree")
         return
+    # "poly(x, d) returns d columns", "raw=True returns exactly those powers": on the training data
+    # and, when the call is the same, on every later evaluation of the same term / instance
+    if same_args and (r0 or len(set(x0)) > d0):
+        for i, ((y, _, _), o) in enumerate(zip(calls[1:], outs[1:]), 1):
+            if "err" in o or not y:
+                continue
+            if r0 and all(exact_float(v ** k) for v in y for k in range(1, d0 + 1)):
+                def on_raw_later(ans, i=i, o=o):
+                    if not ans["holds"]:
+                        failure(res, {**case, "call": i}, o, "x^k, k = 1..degree",
+                                f"call {i} (later data): raw=True did not return exactly the "
+                                f"{d0} powers")
+                run.add({"op": "c14_spec", "kind": "poly_raw", "x": [qj(v) for v in y],
+                         "degree": d0, "cols": [[fj(v) for v in c] for c in o["cols"]]},
+                        on_raw_later)
+            else:
+                def on_ncols_later(ans, i=i, o=o):
+                    if not ans["ncols_ok"]:
+                        failure(res, {**case, "call": i}, {"ncols": len(o["cols"])},
+                                {"ncols": d0}, f"call {i} (later data): poly(x, {d0}) did not "
+                                f"return {d0} columns")
+                run.add({"op": "c14_spec", "kind": "poly_ortho", "eps": qj(F(1)), "degree": d0,
+                         "cols": [[fj(v) if math.isfinite(v) else qj(0) for v in c]
+                                  for c in o["cols"]]}, on_ncols_later)
     if r0:
         vals_ok = all(exact_float(v ** k) for v in x0 for k in range(1, d0 + 1))
         if vals_ok:
@@ -757,6 +887,14 @@ def case_poly(run, calls, path, same_args):
                     failure(res, case, o0, "x^k", "raw=True did not return exactly the powers")
             run.add({"op": "c14_spec", "kind": "poly_raw", "x": [qj(v) for v in x0], "degree": d0,
                      "cols": [[fj(v) for v in c] for c in o0["cols"]]}, on_raw)
+        else:
+            def on_ncols(ans):
+                if not ans["ncols_ok"]:
+                    failure(res, case, {"ncols": len(o0["cols"])}, {"ncols": d0},
+                            f"poly(x, {d0}, raw=True) did not return {d0} columns")
+            run.add({"op": "c14_spec", "kind": "poly_ortho", "eps": qj(F(1)), "degree": d0,
+                     "cols": [[fj(v) if math.isfinite(v) else qj(0) for v in c]
+                              for c in o0["cols"]]}, on_ncols)
         res.nontrivial.add(("poly_raw", tuple(x0), d0))
         return
     if len(set(x0)) <= d0:
@@ -790,8 +928,8 @@ def case_poly(run, calls, path, same_args):
         pts = sorted(set(x0))
         lo, hi = pts[0], pts[-1]
         for (y, _, _), o in zip(calls[1:], outs[1:]):
-            if "err" in o:
-                continue
+            if "err" in o or len(o["cols"]) != d0:
+                continue        # the column count on later data is judged above
             for k in range(1, d0 + 1):
                 step = max(1, len(pts) // (k + 1))
                 nodes = (pts[::step] + pts[-(k + 1):])[:k + 1]
@@ -832,7 +970,9 @@ def case_poly(run, calls, path, same_args):
 def explore(tier, seed, res=None, replay=None):
     res = res or Result()
     res.rule = ("a case = one transform instance x one history of calls (training vector, then "
-                "later vectors) x one argument combination x one path (direct / formula); "
+                "later vectors) x one argument combination x one path (direct / formula, the call "
+                "written positionally, by keyword, with defaults left out or with values from the "
+                "namespace); vectors incl. small spreads (rates in [0.01, 0.09]) alone and on an offset; "
                 "non-trivial = training vector with >= 2 distinct values (center/scale), at least "
                 "one x inside the boundary knots (bs), accepted raw / > degree distinct values "
                 "(poly); distinct by (vector, stored parameters)")
@@ -863,6 +1003,7 @@ def explore(tier, seed, res=None, replay=None):
 
     n_vec = 300 if tier == "quick" else 10000
     rng = rng_for(seed, "c14", "gen")
+    rng_sp = rng_for(seed, "c14", "spelling")
     for it in range(n_vec):
         # the formula path (design_matrices + evaluate_new_data) is ~10x slower than a direct call:
         # thorough exercises it on every second vector
@@ -895,25 +1036,30 @@ def explore(tier, seed, res=None, replay=None):
             a2, _ = gen_bs_args(rng, later, valid=rng.random() < 0.7)
             case_bs(run, [(x, a), (later, a2)], tag, "direct")
             if j == 0 and formula:
-                case_bs(run, [(x, a), (later, a)], tag, "formula")
+                case_bs(run, [(x, a), (later, a)], tag, "formula", rng_sp.choice(BS_SPELLINGS))
         for j in range(3):
             a, tag = gen_bs_args(rng, x, valid=False)
             case_bs(run, [(x, a), (later, a)], tag, "direct")
             if j == 0 and formula:
-                case_bs(run, [(x, a), (later, a)], tag, "formula")
+                case_bs(run, [(x, a), (later, a)], tag, "formula", rng_sp.choice(BS_SPELLINGS))
         if rng.random() < 0.05:
             a, tag = gen_bs_args(rng, x, valid=True)
             case_bs(run, [([], a), (x, a)], "empty_x", "direct")
 
         # ---- poly ------------------------------------------------------------------------------
-        x, style = gen_vector(rng, style=rng.choice(["int", "dyadic", "ties", "offset", "wide"]))
-        later = gen_new(rng, x)
+        x, style = gen_vector(rng, style=rng.choice(["int", "dyadic", "ties", "offset", "wide", "small",
+                                                     "small_offset"]))
+        res.count("poly:vector:" + style)
+        later = gen_new(rng, x, scaled=True)
         for j in range(3):
             d = rng.randrange(1, 7)
             raw = rng.random() < 0.4
             case_poly(run, [(x, d, raw), (later, d, raw)], "direct", True)
-            if j == 0 and len(x) >= 2 and formula:
-                case_poly(run, [(x, d, raw), (later, d, raw)], "formula", True)
+            if j <= 1 and len(x) >= 2 and formula:
+                # through the formula interface: training, then two later frames (the second one
+                # re-evaluates the term once more), in one of the spellings of the same call
+                case_poly(run, [(x, d, raw), (later, d, raw), (gen_new(rng_sp, x, scaled=True), d, raw)],
+                          "formula", True, rng_sp.choice(poly_spellings(d, raw)))
         # direct API with changing arguments: degree/raw are overwritten, alpha/norms2 memoised
         d1, d2 = rng.randrange(0, 5), rng.randrange(0, 7)
         case_poly(run, [(x, d1, rng.random() < 0.3), (later + x, d2, rng.random() < 0.3),
@@ -938,7 +1084,8 @@ def replay_case(run, c):
         for cc in c["calls"]:
             a = {k: eval(v, {"Fraction": F}) for k, v in cc["args"].items()}  # repr of plain values
             calls.append(([parse_frac(v) for v in cc["x"]], a))
-        case_bs(run, calls, c.get("tag", "replay"), c.get("path", "direct"))
+        case_bs(run, calls, c.get("tag", "replay"), c.get("path", "direct"),
+                c.get("spelling", "keyword"))
     elif t == "poly":
         calls = [([parse_frac(v) for v in cc["x"]], cc["degree"], cc["raw"]) for cc in c["calls"]]
-        case_poly(run, calls, c.get("path", "direct"), True)
+        case_poly(run, calls, c.get("path", "direct"), True, c.get("text"))
